@@ -9,6 +9,13 @@
 pub struct Cnf { _p: u8 }
 impl Cnf {
     pub uninterp spec fn cls(&self) -> Seq<Vec<Literal>>;
+    pub uninterp spec fn nv_s(&self) -> nat;
+    /// identity of the formula's truth function (`csem_of(id, env)` in trusted/sat_stub.rs)
+    pub uninterp spec fn id_s(&self) -> int;
+    #[verifier::external_body]
+    pub fn num_vars(&self) -> (r: usize)
+        ensures r == self.nv_s(),
+    { unimplemented!() }
     #[verifier::external_body]
     pub fn clauses(&self) -> (r: &[Vec<Literal>])
         ensures r@ == self.cls(),
